@@ -24,7 +24,15 @@ RANDOMISED = {
                    ("refined_AAFT_surrogates", {"n_iterations": 2,
                                                 "output": "true_spectrum"}),
                    ("twin_surrogates", {"dimension": 2, "delay": 1,
-                                        "threshold": 0.6, "min_dist": 2})],
+                                        "threshold": 0.6, "min_dist": 2}),
+                   ("original_distribution", {
+                       "test_function": "@static:test_pearson_correlation",
+                       "n_bins": 4}),
+                   ("test_threshold_significance", {
+                       "surrogate_function":
+                           "@static:white_noise_surrogates",
+                       "test_function": "@static:test_pearson_correlation",
+                       "realizations": 2, "n_bins": 4})],
     "ClimateData": [("shuffled_anomaly", {})],
     "RecurrencePlot": [("resample_diagline_dist", {"M": 5}),
                        ("resample_vertline_dist", {"M": 5})],
@@ -338,11 +346,13 @@ class C06(Machine):
                             f"perpetrator: {perp}")
             # (iii) caller-owned arrays unchanged
             R.probe("caller_arrays_checked")
-            for k_, a, b, dt, sh in held:
+            for hi, (k_, a, b, dt, sh) in enumerate(held):
                 if a.tobytes() != b or a.dtype.str != dt or a.shape != sh:
                     self._viol(R, spec, key, "caller-array", k_,
                                f"step {step}: {spec.name}.{key} changed the "
                                f"caller's '{k_}' array (shape {sh})")
+                    # attribute the change to this step only
+                    held[hi] = (k_, a, a.tobytes(), a.dtype.str, a.shape)
             # (iv) the shared object still answers as an isolated one
             check_shared(step, spec, key, rotate=True)
         R.opsig = C.digest_of(repr(sig))
